@@ -21,6 +21,7 @@ import copy
 import math
 import numpy as np
 from .. import common
+from ..translator import py2lean
 from ..common import enc, ask
 
 LEVEL = "proof"
@@ -748,7 +749,20 @@ def nontriv(calls):
     return any(k in ("fit", "ft") and i + 1 < len(ks) for i, k in enumerate(ks))
 
 
+# source translator (DESIGN.md 3.2): part of the model is regenerated from the source text on every run
+# (the landscaper, and the imager geometry whose `fit` C18's imager statements are about)
+TRUSTED = [py2lean.trusted_note("landscaper"), py2lean.trusted_note("imager")]
+PROP_FILES = ["PersimVerif/Props/C18.lean"] + py2lean.prop_files("landscaper") + [
+    f for f in py2lean.prop_files("imager") if f not in py2lean.prop_files("landscaper")]
+
+
+def pre_build(ctx):
+    """source translator: regenerate Generated/Src*.lean from PERSIM_ROOT's source"""
+    py2lean.pre_build(ctx, ("landscaper", "imager"))
+
+
 def run(ctx):
+    py2lean.report_broken(ctx, PROP_FILES)
     import contextlib, io
     buf = io.StringIO()
     try:
@@ -985,3 +999,4 @@ MANIFEST = {
             "law also on a clone, on the clone of a Pipeline holding the object and after set_params(**get_params()).",
     "technique": "Lean 4 theorems over state-machine models + differential correspondence on call sequences + metamorphic tests",
 }
+MANIFEST["note"] += " " + py2lean.manifest_note("landscaper") + " " + py2lean.manifest_note("imager")
